@@ -71,9 +71,27 @@ func runKeys(L int, placement int, fill byte) []string {
 	case 3: // two runs in sequence, the second below the first
 		q := strings.Repeat("\x33", L/2)
 		return sortUniq([]string{a[:len(a)-1] + "\x70" + q + "\x01", a[:len(a)-1] + "\x70" + q + "\x02", b})
+	case 4: // the run leads INTO a 257-bit node: more than 10 distinct bytes follow it
+		// (byte nodes take whole bytes, so the run is L rounded down to even)
+		ks := []string{}
+		for i := 0; i < 12; i++ {
+			ks = append(ks, p+string([]byte{byte(i*21 + 1)})+"t")
+		}
+		return sortUniq(ks)
+	case 5: // run into a 257-bit node that sits below another 257-bit node
+		ks := []string{}
+		for i := 0; i < 12; i++ {
+			ks = append(ks, string([]byte{byte(i + 3)}))
+			ks = append(ks, "\x40"+p+string([]byte{byte(i*20 + 2)}))
+		}
+		return sortUniq(ks)
 	}
 	return nil
 }
+
+const c08Placements = 6
+
+var c08PlacementNames = []string{"root", "below-17bit", "below-257bit", "chained", "into-257bit", "into-257bit-below-257bit"}
 
 func c08NumInject(tier string) int {
 	if tier == "thorough" {
@@ -83,7 +101,7 @@ func c08NumInject(tier string) int {
 }
 
 func c08NumCases(tier string) int {
-	return c08NumInject(tier) + len(c08RunLengths(tier))*4
+	return c08NumInject(tier) + len(c08RunLengths(tier))*c08Placements
 }
 
 func c08Viol(ctx *Ctx, clause string, o OptSet, keys []string, extra map[string]interface{}) {
@@ -150,8 +168,8 @@ func runC08(ctx *Ctx, idx int) {
 		// ---- run-length sweep
 		j := idx - ninj
 		ls := c08RunLengths(ctx.Tier)
-		L := ls[j/4]
-		placement := j % 4
+		L := ls[j/c08Placements]
+		placement := j % c08Placements
 		fill := []byte{'x', 0x00, 0xff, 0x5a}[r.Intn(4)]
 		keys := runKeys(L, placement, fill)
 		ctx.Eval()
@@ -166,7 +184,7 @@ func runC08(ctx *Ctx, idx int) {
 		}
 		for _, o := range opts {
 			st, err, pv, stack := buildTrie(vals.Encoder(), keys, vals.Slice(), o.Opt())
-			ex := map[string]interface{}{"run_half_bytes": L, "placement": []string{"root", "below-17bit", "below-257bit", "chained"}[placement], "max_key_len": maxLen, "value_kind": vals.Kind}
+			ex := map[string]interface{}{"run_half_bytes": L, "placement": c08PlacementNames[placement], "max_key_len": maxLen, "value_kind": vals.Kind}
 			if pv != nil {
 				ex["panic"], ex["stack"] = fmt.Sprint(pv), stack
 				c08Viol(ctx, "build-panic", o, keys, ex)
@@ -370,8 +388,8 @@ func runC08(ctx *Ctx, idx int) {
 
 func init() {
 	register(&CheckDef{
-		ID: "C08", Level: "exploration",
-		Rule:     "two case kinds: (a) a generated valid key list (must be accepted) with order violations injected at every position of short lists / seeded positions of long ones (duplicate, swap, key followed by its own prefix, move-to-front, reverse, two swaps; signed-vs-unsigned byte traps) - each must be rejected with ErrKeyOutOfOrder and a nil trie; (b) run-length sweep: key sets whose single-branch run is exactly L half-bytes (L dense around powers of two and 65535/65536, up to 70000; thorough to 262145) at the root, below a 17-bit node, below a 257-bit node and chained, all 16 option sets - either an error with a nil trie or a trie (fresh and loaded) that finds every key it was built from; lists within the documented 16 KiB key length must be accepted; non-trivial = list with at least one effective violation, or one (L, placement); distinct by hash",
+		ID: "C08", Level: "exploration", MemoryIsViolation: true, HangIsViolation: true, HangSeconds: 180,
+		Rule:     "two case kinds: (a) a generated valid key list (must be accepted) with order violations injected at every position of short lists / seeded positions of long ones (duplicate, swap, key followed by its own prefix, move-to-front, reverse, two swaps; signed-vs-unsigned byte traps) - each must be rejected with ErrKeyOutOfOrder and a nil trie; (b) run-length sweep: key sets whose single-branch run is exactly L half-bytes (L dense around powers of two and 65535/65536, up to 70000; thorough to 262145) at the root, below a 17-bit node, below a 257-bit node, chained, leading into a 257-bit node (at the root and below another 257-bit node), all 16 option sets - either an error with a nil trie or a trie (fresh and loaded) that finds every key it was built from; lists within the documented 16 KiB key length must be accepted; non-trivial = list with at least one effective violation, or one (L, placement); distinct by hash",
 		NumCases: c08NumCases,
 		Run:      runC08,
 		MinNontrivial: func(tier string) int {
